@@ -107,6 +107,9 @@ func noEffectBeforeError(p *load.Program, r *kit.Report, rule string, f *ssa.Fun
 }
 
 func checkC08(p *load.Program, r *kit.Report) {
+	importRules(p, r, "C17", "`marked invalid` and `unknown parent` are answered for what MarkHeaderInvalid removed: a descendant branch that survives the trim still finds the removed headers through its parent pointer, and they are answered `already known`", 2, nil, "TRIM-SHAPE")
+	importRules(p, r, "C03", "the `wrong chain` verdict: every effect of ProcessHeader lies behind the split tests, whatever the height of the current tip", 5,
+		func(o *kit.Obligation) bool { return strings.HasPrefix(o.Construct, "ProcessHeader/splits-before") }, "GUARD-DOM")
 	importRules(p, r, "C17", "a header that was removed from a branch must also leave its hash map, or later submissions are answered \"already known\" / find a parent that is gone", 2, nil, "SHRINK-SIBLING")
 	importRules(p, r, "C09", "parent lookup, duplicate test and the depth test all use the stored hash→height labels: a wrong label gives a wrong verdict", 11, nil, "HEIGHT-LABEL")
 	importRules(p, r, "C11", "the `marked invalid` verdict after a restart comes from the list load builds: stored hashes ∪ every configured hash", 2,
